@@ -97,6 +97,8 @@ type G struct {
 	scope  []gvar
 	funcs  []gfunc
 	budget int
+	// eolClass: line ends of generated multi-line literals (gen_text.go): 0 LF, 1 CR LF, 2 mixed
+	eolClass int
 }
 
 func (g *G) int(lo, hi int, l string) int { return rapid.IntRange(lo, hi).Draw(g.t, l) }
@@ -1084,7 +1086,10 @@ func (g *G) boolExpr(d int) *Node {
 }
 
 func (g *G) strExpr(d int) *Node {
-	switch g.w("stralt", 7, 2, 1) {
+	switch g.w("stralt", 7, 2, 1, 1) {
+	case 3:
+		// a template shaped like the body of a heredoc (gen_text.go)
+		return g.HeredocBody(d)
 	case 0:
 		return g.Template(d, false)
 	case 1:
@@ -1459,12 +1464,12 @@ func (g *G) litText() string {
 		case 2:
 			sb.WriteString("  ")
 		case 3:
-			sb.WriteString("\n")
+			sb.WriteString(g.nl())
 		case 4:
 			if g.bool("tab") {
 				sb.WriteString("\t")
 			} else {
-				sb.WriteString(" \n")
+				sb.WriteString(" " + g.nl())
 			}
 		default:
 			sb.WriteString(pickS(g, litUnits, "unit"))
@@ -1532,13 +1537,18 @@ func (g *G) tparts(d int, top bool) []*Part {
 func (g *G) Template(d int, forceMulti bool) *Node {
 	n := &Node{K: KTmpl, Parts: g.tparts(d, true)}
 	if g.pct(35, "endnl") {
+		e := g.nl()
 		if k := len(n.Parts); k > 0 && n.Parts[k-1].K == PLit {
-			n.Parts[k-1].S += "\n"
+			n.Parts[k-1].S += e
 		} else {
-			n.Parts = append(n.Parts, &Part{K: PLit, S: "\n"})
+			n.Parts = append(n.Parts, &Part{K: PLit, S: e})
 		}
 	}
 	FixStrips(n)
+	// a carriage return that is not part of a CR LF, in about 1 template in 25 (gen_text.go)
+	if g.int(0, 24, "lonecr") == 13 {
+		LoneCR(n, g.int(0, 1000, "lonecrpos"))
+	}
 	return n
 }
 
